@@ -143,7 +143,14 @@ func (w *Writer) WriteFlvTag(tag *Tag) error {
 		w.timestampDelta = tag.Timestamp
 	}
 
-	if err := writeTag(w.w, tag, w.timestampDelta); err != nil {
+	// FLV 时间戳是有符号 32 位数：比第一个 Tag 更早的 Tag（例如客户端加入处关键帧之前的音频）
+	// 输出为 0，而不是无符号减法回绕后的巨大时间戳
+	timestampDelta := w.timestampDelta
+	if int32(tag.Timestamp-timestampDelta) < 0 {
+		timestampDelta = tag.Timestamp
+	}
+
+	if err := writeTag(w.w, tag, timestampDelta); err != nil {
 		return err
 	}
 
